@@ -407,11 +407,13 @@ def w_random(seeds):
     return evs
 
 
-def special_cases():
+def special_cases(known=()):
     """Known-name trees that are not valid: empty descriptions under the listed parents, parentless
     description, paras without text - totality, and the description warnings."""
     evs = []
-    for parent in ("maintenance", "methodStep", "qualityControl", "studyExtent", "samplingDescription"):
+    listed = ("maintenance", "methodStep", "qualityControl", "studyExtent", "samplingDescription", "connectionDefinition", "designDescription", "procedureStep")
+    # an empty description under EVERY known element: only the listed parents warrant a warning
+    for parent in list(listed) + sorted(x for x in known if x not in listed and x != "description"):
         Node.store.clear()
         p = Node(parent)
         p.add_child(Node("description"))
@@ -447,7 +449,7 @@ def run(rep, tier, seed):
         invalid += inv
     nrand = 150 if tier == "quick" else 4000
     evs += [e for chunk in parallel(w_random, [seed * 3331 + i for i in range(nrand)]) for e in chunk]
-    evs += special_cases()
+    evs += special_cases(set(t.node_map))
     strip = lambda e: {k: v for k, v in e.items() if k != "desc"}  # noqa: E731
     rejects, rr = judge_traces([strip(e) for e in evs], PID, module="TraceEval", cfg="TraceValidate.cfg", label="eval", timeout=3000)
     rep.cov["states"] += rr.distinct or 0
